@@ -43,7 +43,7 @@ if rc: print('patch does not apply to /repo', out); sys.exit(1)
 res = {}
 try:
     for p in props:
-        rc, out = sh('./check %s' % p, V)
+        rc, out = sh('VERIF_EVIDENCE_DIR=/tmp/seed_evidence ./check %s' % p, V)
         lines = [l for l in out.split('\n') if l.startswith(('VIOLATION', 'UNDECIDED', 'OK', 'KNOWN'))]
         res[p] = {'exit': rc, 'lines': lines}
         print(p, rc, lines[:4])
